@@ -250,6 +250,226 @@ Lemma moves_forgetful_partial :
   d_trash (fold_left (apply 0) (moves aon_fail2 true 7 [] [aon_s 1; aon_s 2; aon_s 3]) aon_dir) = [].
 Proof. vm_compute. repeat split; reflexivity. Qed.
 
+(** ---- moveAll's list may contain compound shards (shardMerging off): they are never renamed (HACK branch: tombstoned or
+    removed in place), and they do not disturb the all-or-nothing behaviour of the simple shards of the list *)
+Lemma aon_find_on_file b b' (g : file -> file) fs :
+  (forall f, f_base (g f) = f_base f) -> N.eqb b b' = false -> find_file b (on_file b' g fs) = find_file b fs.
+Proof.
+  intros Hg Hne. unfold find_file, on_file. induction fs as [|f fs IH]; cbn; [reflexivity|].
+  destruct (N.eqb (f_base f) b') eqn:E1.
+  - rewrite Hg. destruct (N.eqb (f_base f) b) eqn:E2; [|exact IH].
+    apply N.eqb_eq in E1, E2. subst. rewrite N.eqb_refl in Hne. discriminate.
+  - destruct (N.eqb (f_base f) b); [reflexivity|exact IH].
+Qed.
+
+(** an action on a compound shard named b' leaves every other name alone, in both directories *)
+Definition compound_act (b' : N) (a : act) : Prop :=
+  a = RmIndex b' \/ a = RmTrash b' \/ exists id totr, a = TombOrRm b' id totr.
+
+Lemma aon_compound_frame now b' a x b : compound_act b' a -> N.eqb b b' = false ->
+  find_file b (d_index (apply now x a)) = find_file b (d_index x) /\
+  find_file b (d_trash (apply now x a)) = find_file b (d_trash x).
+Proof.
+  intros Ha Hne. destruct Ha as [->|[->|(id' & totr & ->)]]; cbn [apply].
+  - cbn [d_index d_trash]. rewrite aon_find_rm, Hne. split; reflexivity.
+  - cbn [d_index d_trash]. rewrite aon_find_rm, Hne. split; reflexivity.
+  - destruct (serves_others b' id' (d_index x)); cbn [d_index d_trash].
+    + split; [|reflexivity]. apply aon_find_on_file; [reflexivity|exact Hne].
+    + rewrite aon_find_rm, Hne. split; [reflexivity|]. destruct totr; [|reflexivity]. rewrite aon_find_rm, Hne. reflexivity.
+Qed.
+
+Lemma aon_compound_frame_sd now ti b' a x b : compound_act b' a -> N.eqb b b' = false ->
+  find_file b (srcd ti (apply now x a)) = find_file b (srcd ti x) /\
+  find_file b (dstd ti (apply now x a)) = find_file b (dstd ti x).
+Proof.
+  intros Ha Hne. destruct (aon_compound_frame now b' a x b Ha Hne) as [H1 H2].
+  unfold srcd, dstd. destruct ti; split; assumption.
+Qed.
+
+Definition simple_of (l : list sref) : list sref := filter (fun s => negb (s_compound s)) l.
+Definition compound_of (l : list sref) : list sref := filter s_compound l.
+Definition any_fail_simple (mf : bool -> N -> bool) (ti : bool) (g : list sref) : bool := any_fail mf ti (simple_of g).
+
+Lemma drop_compound_act ti id s : s_compound s = true -> compound_act (s_base s) (drop ti id s).
+Proof.
+  intros K. unfold drop. rewrite K. destruct ti; [right; left; reflexivity|right; right; eauto].
+Qed.
+
+(** removeAll(shards...) over a mixed list: the simple ones vanish from the source, nothing else happens to names
+    that are not those of compound entries *)
+Lemma aon_drop_list now ti id l : forall x,
+  let x' := fold_left (apply now) (map (drop ti id) l) x in
+  forall b, in_bases b (compound_of l) = false ->
+    find_file b (srcd ti x') = (if in_bases b (simple_of l) then None else find_file b (srcd ti x)) /\
+    find_file b (dstd ti x') = find_file b (dstd ti x).
+Proof.
+  induction l as [|s l IH]; intros x; cbn [map fold_left]; [intros b _; split; reflexivity|].
+  intros b Hb. unfold compound_of, simple_of in *. cbn [filter] in *.
+  destruct (s_compound s) eqn:K; cbn [negb] in *.
+  - cbn [in_bases existsb] in Hb. apply orb_false_iff in Hb as [Hb1 Hb2].
+    destruct (IH (apply now x (drop ti id s)) b Hb2) as [I1 I2]. cbn zeta in I1, I2. rewrite I1, I2.
+    destruct (aon_compound_frame_sd now ti (s_base s) (drop ti id s) x b (drop_compound_act ti id s K) Hb1) as [F1 F2].
+    rewrite F1, F2. split; reflexivity.
+  - destruct (IH (apply now x (drop ti id s)) b Hb) as [I1 I2]. cbn zeta in I1, I2. rewrite I1, I2.
+    unfold drop. rewrite K. cbn [in_bases existsb].
+    assert (E1 : find_file b (srcd ti (apply now x (rm_src ti s))) = if N.eqb b (s_base s) then None else find_file b (srcd ti x)).
+    { unfold rm_src, srcd. destruct ti; cbn [apply d_index d_trash]; apply aon_find_rm. }
+    assert (E2 : dstd ti (apply now x (rm_src ti s)) = dstd ti x) by (unfold rm_src, dstd; destruct ti; reflexivity).
+    rewrite E1, E2. split; [|reflexivity].
+    fold (in_bases b (filter (fun s0 => negb (s_compound s0)) l)).
+    destruct (in_bases b (filter (fun s0 => negb (s_compound s0)) l)), (N.eqb b (s_base s)); reflexivity.
+Qed.
+
+Lemma in_bases_filter b (p : sref -> bool) l : in_bases b (filter p l) = true -> in_bases b l = true.
+Proof.
+  unfold in_bases. rewrite !existsb_exists. intros (s & Hs & E). apply filter_In in Hs. exists s. tauto.
+Qed.
+
+Lemma in_bases_filter_false b (p : sref -> bool) l : in_bases b l = false -> in_bases b (filter p l) = false.
+Proof. intros H. destruct (in_bases b (filter p l)) eqn:E; [|reflexivity]. apply in_bases_filter in E. congruence. Qed.
+
+Lemma in_bases_app b l1 l2 : in_bases b (l1 ++ l2) = in_bases b l1 || in_bases b l2.
+Proof. unfold in_bases. apply existsb_app. Qed.
+
+Lemma nodup_base_inj (l : list sref) a c : NoDup (map s_base l) -> In a l -> In c l -> s_base a = s_base c -> a = c.
+Proof.
+  induction l as [|y l IH]; intros Hnd Ha Hc E; [contradiction|].
+  cbn in Hnd. inversion Hnd as [|? ? Hy Hn]; subst.
+  destruct Ha as [->|Ha], Hc as [->|Hc]; [reflexivity| | |exact (IH Hn Ha Hc E)].
+  - exfalso. apply Hy. rewrite E. apply in_map. exact Hc.
+  - exfalso. apply Hy. rewrite <- E. apply in_map. exact Ha.
+Qed.
+
+Lemma nodup_app_r {A} (l1 l2 : list A) : NoDup (l1 ++ l2) -> NoDup l2.
+Proof. induction l1 as [|a l1 IH]; intros H; [exact H|]. inversion H; subst. apply IH. assumption. Qed.
+
+Lemma aon_moves_effect_mixed mf now ti id : forall g done x,
+  NoDup (map s_base (done ++ g)) ->
+  let x' := fold_left (apply now) (moves mf ti id done g) x in
+  (forall b, in_bases b (done ++ g) = false ->
+     find_file b (srcd ti x') = find_file b (srcd ti x) /\ find_file b (dstd ti x') = find_file b (dstd ti x)) /\
+  (forall s, In s done ->
+     find_file (s_base s) (srcd ti x') = find_file (s_base s) (srcd ti x) /\
+     find_file (s_base s) (dstd ti x') = if any_fail_simple mf ti g then None else find_file (s_base s) (dstd ti x)) /\
+  (forall s, In s g -> s_compound s = false ->
+     find_file (s_base s) (srcd ti x') = None /\
+     if any_fail_simple mf ti g
+     then find_file (s_base s) (dstd ti x') = None \/ find_file (s_base s) (dstd ti x') = find_file (s_base s) (dstd ti x)
+     else find_file (s_base s) (dstd ti x') = find_file (s_base s) (srcd ti x)).
+Proof.
+  induction g as [|s r IH]; intros done x Hnd; cbn zeta.
+  - cbn [moves fold_left]. unfold any_fail_simple, simple_of, any_fail. cbn [filter existsb].
+    split; [intros b _; split; reflexivity|]. split; [intros s' _; split; reflexivity|]. intros s' [].
+  - pose proof (aon_nodup_mid _ _ _ Hnd) as Hmid.
+    assert (Hne : forall s', In s' (done ++ r) -> N.eqb (s_base s') (s_base s) = false).
+    { intros s' H. apply N.eqb_neq. intros E. apply Hmid. rewrite <- E. apply in_map. exact H. }
+    assert (Hndr : NoDup (map s_base (done ++ r))).
+    { rewrite map_app in Hnd |- *. cbn [map] in Hnd. apply NoDup_remove_1 in Hnd. exact Hnd. }
+    cbn [moves]. destruct (s_compound s) eqn:K.
+    + (* a compound shard: handled in place, then the loop goes on *)
+      assert (Haf : any_fail_simple mf ti (s :: r) = any_fail_simple mf ti r).
+      { unfold any_fail_simple, simple_of. cbn [filter]. rewrite K. reflexivity. }
+      rewrite Haf. rewrite fold_left_app.
+      set (pre := if ti then [RmIndex (s_base s); RmTrash (s_base s)] else [TombOrRm (s_base s) id true]).
+      set (x1 := fold_left (apply now) pre x).
+      assert (Hx1 : forall b, N.eqb b (s_base s) = false ->
+                find_file b (srcd ti x1) = find_file b (srcd ti x) /\ find_file b (dstd ti x1) = find_file b (dstd ti x)).
+      { intros b Hb. subst x1 pre. destruct ti; cbn [fold_left].
+        - destruct (aon_compound_frame_sd now true (s_base s) (RmTrash (s_base s)) (apply now x (RmIndex (s_base s))) b
+                      (or_intror (or_introl eq_refl)) Hb) as [A1 A2].
+          destruct (aon_compound_frame_sd now true (s_base s) (RmIndex (s_base s)) x b (or_introl eq_refl) Hb) as [B1 B2].
+          rewrite A1, A2, B1, B2. split; reflexivity.
+        - apply (aon_compound_frame_sd now false (s_base s) (TombOrRm (s_base s) id true) x b); [|exact Hb].
+          right. right. eauto. }
+      destruct (IH done x1 Hndr) as (F & Dn & G). cbn zeta in F, Dn, G.
+      split; [|split].
+      * intros b Hb. rewrite in_bases_app in Hb. apply orb_false_iff in Hb as [Hb1 Hb2].
+        cbn [in_bases existsb] in Hb2. apply orb_false_iff in Hb2 as [Hb2 Hb3].
+        assert (Hb' : in_bases b (done ++ r) = false) by (rewrite in_bases_app, Hb1; exact Hb3).
+        destruct (F b Hb') as [F1 F2]. destruct (Hx1 b Hb2) as [T1 T2]. rewrite F1, F2, T1, T2. split; reflexivity.
+      * intros s' Hs'. destruct (Dn s' Hs') as [D1 D2].
+        destruct (Hx1 (s_base s') (Hne s' (in_or_app _ _ _ (or_introl Hs')))) as [T1 T2].
+        rewrite D1, D2, T1, T2. split; reflexivity.
+      * intros s' [<- | Hs'] Ks'; [congruence|].
+        destruct (G s' Hs' Ks') as [G1 G2].
+        destruct (Hx1 (s_base s') (Hne s' (in_or_app _ _ _ (or_intror Hs')))) as [T1 T2].
+        split; [exact G1|]. destruct (any_fail_simple mf ti r); [rewrite T2 in G2; exact G2|rewrite G2, T1; reflexivity].
+    + assert (Haf : any_fail_simple mf ti (s :: r) = mf ti (s_base s) || any_fail_simple mf ti r).
+      { unfold any_fail_simple, simple_of, any_fail. cbn [filter]. rewrite K. reflexivity. }
+      rewrite Haf. destruct (mf ti (s_base s)) eqn:Emf; cbn [orb].
+      * (* the rename of s fails *)
+        cbn [fold_left]. rewrite fold_left_app.
+        set (xa := apply now (apply now x (rm_dst ti s)) (rm_dst ti s)).
+        destruct (aon_rm_dst_list now ti done xa) as [D1 D2]. cbn zeta in D1, D2.
+        set (xb := fold_left (apply now) (map (rm_dst ti) done) xa) in *.
+        pose proof (aon_drop_list now ti id (s :: r) xb) as S. cbn zeta in S.
+        set (xc := fold_left (apply now) (map (drop ti id) (s :: r)) xb) in *.
+        assert (A1 : srcd ti xa = srcd ti x) by (subst xa; unfold rm_dst, srcd; destruct ti; reflexivity).
+        assert (A2 : forall b, find_file b (dstd ti xa) = if N.eqb b (s_base s) then None else find_file b (dstd ti x)).
+        { intros b. subst xa. unfold rm_dst, dstd. destruct ti; cbn [apply d_index d_trash]; rewrite !aon_find_rm;
+            destruct (N.eqb b (s_base s)); reflexivity. }
+        assert (Hsd : forall b, in_bases b (compound_of (s :: r)) = false ->
+                  find_file b (srcd ti xc) = (if in_bases b (simple_of (s :: r)) then None else find_file b (srcd ti x)) /\
+                  find_file b (dstd ti xc) =
+                    (if in_bases b done then None else if N.eqb b (s_base s) then None else find_file b (dstd ti x))).
+        { intros b Hb. destruct (S b Hb) as [S1 S2]. rewrite S1, S2, D1, A1, D2, A2. split; reflexivity. }
+        assert (Hdisj : forall s1 s2, In s1 done -> In s2 (s :: r) -> s_base s1 <> s_base s2).
+        { intros s1 s2 H1 H2 E. rewrite map_app in Hnd. apply (NoDup_app_disjoint_ls _ _ Hnd (s_base s1)).
+          - apply in_map. exact H1.
+          - rewrite E. apply in_map. exact H2. }
+        split; [|split].
+        -- intros b Hb. rewrite in_bases_app in Hb. apply orb_false_iff in Hb as [Hb1 Hb2].
+           destruct (Hsd b (in_bases_filter_false b _ _ Hb2)) as [H1 H2]. rewrite H1, H2.
+           unfold simple_of. rewrite (in_bases_filter_false b _ _ Hb2), Hb1.
+           cbn [in_bases existsb] in Hb2. apply orb_false_iff in Hb2 as [Hb2 _]. rewrite Hb2. split; reflexivity.
+        -- intros s' Hs'.
+           assert (Hnot : in_bases (s_base s') (s :: r) = false).
+           { apply in_bases_false. intros Hin. apply in_map_iff in Hin as (s2 & E2 & Hin). exact (Hdisj s' s2 Hs' Hin (eq_sym E2)). }
+           destruct (Hsd (s_base s') (in_bases_filter_false _ _ _ Hnot)) as [H1 H2]. rewrite H1, H2.
+           unfold simple_of. rewrite (in_bases_filter_false _ _ _ Hnot).
+           assert (in_bases (s_base s') done = true) as -> by (apply in_bases_true; apply in_map; exact Hs').
+           split; reflexivity.
+        -- intros s' Hs' Ks'.
+           assert (Hndg : NoDup (map s_base (s :: r))).
+           { rewrite map_app in Hnd. apply nodup_app_r in Hnd. exact Hnd. }
+           assert (Hnc : in_bases (s_base s') (compound_of (s :: r)) = false).
+           { destruct (in_bases (s_base s') (compound_of (s :: r))) eqn:E; [|reflexivity].
+             unfold in_bases in E. apply existsb_exists in E as (c & Hc & Ec). apply N.eqb_eq in Ec.
+             unfold compound_of in Hc. apply filter_In in Hc as [Hc Kc].
+             assert (s' = c) by (apply (nodup_base_inj (s :: r)); assumption). subst c. congruence. }
+           destruct (Hsd (s_base s') Hnc) as [H1 H2]. rewrite H1, H2.
+           assert (in_bases (s_base s') (simple_of (s :: r)) = true) as ->.
+           { apply in_bases_true. apply in_map. unfold simple_of. apply filter_In. split; [exact Hs'|rewrite Ks'; reflexivity]. }
+           split; [reflexivity|].
+           destruct (in_bases (s_base s') done); [left; reflexivity|].
+           destruct (N.eqb (s_base s') (s_base s)); [left|right]; reflexivity.
+      * (* the rename succeeds *)
+        cbn [fold_left].
+        set (x1 := apply now (apply now x (rm_dst ti s)) (mv ti s)).
+        pose proof (aon_step now ti s x) as Hstep. cbn zeta in Hstep. fold x1 in Hstep.
+        assert (Hnd' : NoDup (map s_base ((done ++ [s]) ++ r))) by (rewrite <- app_assoc; exact Hnd).
+        destruct (IH (done ++ [s]) x1 Hnd') as (F & Dn & G). cbn zeta in F, Dn, G.
+        set (x' := fold_left (apply now) (moves mf ti id (done ++ [s]) r) x1) in *.
+        split; [|split].
+        -- intros b Hb. assert (Hb' : in_bases b ((done ++ [s]) ++ r) = false) by (rewrite <- app_assoc; exact Hb).
+           destruct (F b Hb') as [F1 F2]. rewrite F1, F2.
+           destruct (Hstep b) as [T1 T2]. rewrite T1, T2.
+           rewrite in_bases_app in Hb. apply orb_false_iff in Hb as [_ Hb].
+           cbn [in_bases existsb] in Hb. apply orb_false_iff in Hb as [Hb _]. rewrite Hb. split; reflexivity.
+        -- intros s' Hs'. destruct (Dn s' (in_or_app _ _ _ (or_introl Hs'))) as [D1 D2]. rewrite D1, D2.
+           destruct (Hstep (s_base s')) as [T1 T2]. rewrite T1, T2.
+           rewrite (Hne s' (in_or_app _ _ _ (or_introl Hs'))). split; reflexivity.
+        -- assert (Hins : In s (done ++ [s])) by (apply in_or_app; right; left; reflexivity).
+           intros s' [<- | Hs'] Ks'.
+           ++ destruct (Dn s Hins) as [D1 D2]. rewrite D1, D2.
+              destruct (Hstep (s_base s)) as [T1 T2]. rewrite T1, T2, N.eqb_refl. split; [reflexivity|].
+              destruct (any_fail_simple mf ti r); [left|]; reflexivity.
+           ++ destruct (G s' Hs' Ks') as [G1 G2]. split; [exact G1|].
+              destruct (Hstep (s_base s')) as [T1 T2].
+              rewrite (Hne s' (in_or_app _ _ _ (or_intror Hs'))) in T1, T2.
+              destruct (any_fail_simple mf ti r); [rewrite T2 in G2; exact G2 | rewrite G2, T1; reflexivity].
+Qed.
+
 (** ------------------------------------------------------------------ lifted to the whole cleanup:
     a FAILED restore drops the repository completely.  If the rename of ANY trashed shard of an assigned repository
     (first, second, ... shard) fails while cleanup restores it from the trash, then after cleanup no file with the
@@ -311,9 +531,9 @@ Qed.
 Theorem failed_restore_drops_all : forall d repos now sm mf t e id,
   wf d -> wf_trash d -> In t (d_trash d) -> alive_entries t = [e] -> e_id e = id ->
   In id repos -> In id (trash_keys d now) ->
-  (forall s, In s (group (get_shards (d_trash d)) id) -> s_compound s = false) ->
+  f_compound t = false ->
   NoDup (map s_base (group (get_shards (d_trash d)) id)) ->
-  any_fail mf true (group (get_shards (d_trash d)) id) = true ->
+  any_fail_simple mf true (group (get_shards (d_trash d)) id) = true ->
   no_name (f_base t) (cleanup_f d repos now sm mf).
 Proof.
   intros d repos now sm mf t e id Hwf Hwft Ht Hone Hid Hassigned Hkey Hsimple Hnd Hfail.
@@ -336,8 +556,8 @@ Proof.
   set (s0 := mkS (e_id e) (e_name e) (f_base t) (f_compound t) (f_mtime t)) in *.
   assert (Hs0 : In s0 (group (tr d) id)).
   { apply in_group. split; [unfold tr; rewrite Hsp; apply in_or_app; right; left; reflexivity|exact Hid]. }
-  destruct (aon_moves_effect mf now true id (group (tr d) id) [] x0 Hsimple Hnd) as (_ & _ & G). cbn zeta in G.
-  destruct (G s0 Hs0) as [G1 G2]. unfold tr in G2 at 1. rewrite Hfail in G2. cbn [srcd dstd s_base s0] in G1, G2.
+  destruct (aon_moves_effect_mixed mf now true id (group (tr d) id) [] x0 Hnd) as (_ & _ & G). cbn zeta in G.
+  destruct (G s0 Hs0 Hsimple) as [G1 G2]. unfold tr in G2 at 1. rewrite Hfail in G2. cbn [srcd dstd s_base s0] in G1, G2.
   apply notin_find_none in Hfree. subst b x0.
   split.
   - apply find_none_notin. destruct G2 as [G2|G2]; [exact G2|]. rewrite G2. exact Hfree.
@@ -396,9 +616,8 @@ Section TrashingF.
   Hypothesis Hun : ~ In id repos.
   Hypothesis Hcons : consistent (group (ix d) id) = true.
   Let G := filter (fun s => negb (sm && s_compound s)) (group (ix d) id).
-  Hypothesis HsimpleG : forall s, In s G -> s_compound s = false.
   Hypothesis HndG : NoDup (map s_base G).
-  Hypothesis Hfail : any_fail mf false G = true.
+  Hypothesis Hfail : any_fail_simple mf false G = true.   (* the rename of one of its SIMPLE shards fails *)
 
   Let b := f_base g0.
   Let s0 := mkS (e_id e) (e_name e) (f_base g0) (f_compound g0) (f_mtime g0).
@@ -516,8 +735,8 @@ Section TrashingF.
       apply trash_free_fold; [exact (tf_P5_others k1 Hn1)|].
       apply trash_free_fold; [exact tf_plan4|].
       apply trash_free_fold; [exact tf_plan3|]. exact tf_after_plan1. }
-    destruct (aon_moves_effect mf now false id G [] x0 HsimpleG HndG) as (_ & _ & Gf). cbn zeta in Gf.
-    destruct (Gf s0 tf_s0_G) as [G1 G2]. rewrite Hfail in G2. cbn [srcd dstd s_base s0] in G1, G2.
+    destruct (aon_moves_effect_mixed mf now false id G [] x0 HndG) as (_ & _ & Gf). cbn zeta in Gf.
+    destruct (Gf s0 tf_s0_G Hsimple0) as [G1 G2]. rewrite Hfail in G2. cbn [srcd dstd s_base s0] in G1, G2.
     apply notin_find_none in Hfree. subst x0. unfold b in *.
     split.
     - apply find_none_notin. exact G1.
